@@ -27,6 +27,17 @@ fn write_tree(root: &str, t: &[(String, Vec<u8>)]) {
         std::fs::write(full, c).unwrap();
     }
 }
+/// one is a proper directory prefix of the other
+fn dir_clash(p: &str, q: &str) -> bool {
+    p.starts_with(&format!("{}/", q)) || q.starts_with(&format!("{}/", p))
+}
+/// add (p, c) to a tree, dropping the entry at p and everything that cannot coexist with a FILE at p
+fn put_path(t: &mut Vec<(String, Vec<u8>)>, p: &str, c: Option<Vec<u8>>) {
+    t.retain(|(q, _)| q != p && !(c.is_some() && dir_clash(q, p)));
+    if let Some(c) = c {
+        t.push((p.to_string(), c));
+    }
+}
 fn sorted_local(t: &[(String, Vec<u8>)]) -> Vec<(String, Vec<u8>)> {
     let mut m: BTreeMap<std::path::PathBuf, Vec<u8>> = BTreeMap::new();
     for (p, c) in t {
@@ -88,7 +99,9 @@ pub fn main(a: Args) -> i32 {
     let mut r = Rng::new(a.seed ^ 0xC13);
     let nhist = if a.tier == "thorough" { 300 } else { 36 };
     let pool: Vec<Vec<u8>> = vec![b"".to_vec(), b"A".to_vec(), b"BB".to_vec(), b"hello world".to_vec(), vec![0x58; 3000], (0..=255u8).collect(), vec![0x5a; 300_000]];
-    let paths = ["a", "b", "d/x", "d/y", "e f", "d/z'q"];
+    // "d" as a FILE clashes with the directory of d/x, d/y, d/z'q: one tree never holds both, two clients (or a client and
+    // the hub) may
+    let paths = ["a", "b", "d/x", "d/y", "e f", "d/z'q", "d"];
     let hub = format!("{}/HUB", absout);
     let mut id = 0usize;
     let mut nfail = 0u64;
@@ -98,29 +111,35 @@ pub fn main(a: Args) -> i32 {
         let mut init = vec![];
         for p in &paths {
             if r.chance(1, 3) {
-                init.push((p.to_string(), r.pick(&pool[..6]).clone()));
+                let c = r.pick(&pool[..6]).clone();
+                put_path(&mut init, p, Some(c));
             }
         }
+        // history 0 is directed: client 1 pushes `a`; client 0 (local: file `d`, file `e f`) lists, then client 1 commits
+        // `d/x` underneath it, then client 0's Puts arrive: its `d` cannot be committed (a directory is there now)
+        let directed = h == 0;
+        if directed { init.clear(); }
         write_tree(&hub, &init);
-        let nclients = 1 + r.below(3) as usize;
+        let nclients = if directed { 2 } else { 1 + r.below(3) as usize };
         let mut locals: Vec<Vec<(String, Vec<u8>)>> = (0..nclients).map(|_| vec![]).collect();
-        let runs = 3 + r.below(4);
+        let runs = if directed { 2 } else { 3 + r.below(4) };
         for step in 0..runs {
-            let c = r.below(nclients as u64) as usize;
+            let c = if directed { 1 - step as usize } else { r.below(nclients as u64) as usize };
             // mutate this client's local tree
             for _ in 0..(1 + r.below(3)) {
                 let p = r.pick(&paths).to_string();
-                locals[c].retain(|(q, _)| *q != p);
-                if r.chance(3, 4) {
-                    locals[c].push((p, r.pick(&pool).clone()));
-                }
+                let cc = if r.chance(3, 4) { Some(r.pick(&pool).clone()) } else { None };
+                put_path(&mut locals[c], &p, cc);
+            }
+            if directed {
+                locals[c] = if step == 0 { vec![("a".to_string(), b"A".to_vec())] } else { vec![("d".to_string(), b"A".to_vec()), ("e f".to_string(), b"BB".to_vec())] };
             }
             let ldir = format!("{}/L{}", absout, c);
             write_tree(&ldir, &locals[c]);
             let local_sorted = sorted_local(&locals[c]);
             let before = tree_of(&hub);
-            let stale = step > 0 && nclients > 1 && r.chance(1, 4);
-            let via_ssh = r.chance(1, 3);
+            let stale = if directed { step == 1 } else { step > 0 && nclients > 1 && r.chance(1, 4) };
+            let via_ssh = if directed { false } else { r.chance(1, 3) };
             let target = if via_ssh { format!("hubhost:{}", hub) } else { hub.clone() };
             let (obs, listing, at_puts, class);
             if !stale {
@@ -134,9 +153,13 @@ pub fn main(a: Args) -> i32 {
                 let other = (c + 1) % nclients;
                 let odir = format!("{}/L{}", absout, other);
                 let mut ol = locals[other].clone();
-                let p = if let Some((p, _)) = local_sorted.first() { p.clone() } else { "a".to_string() };
-                ol.retain(|(q, _)| *q != p);
-                ol.push((p, r.pick(&pool[1..6]).clone()));
+                let mut p = if let Some((p, _)) = local_sorted.first() { p.clone() } else { "a".to_string() };
+                // one time in three the other client commits at a path that makes A's path a directory / a file under a file
+                if directed || r.chance(1, 3) {
+                    if p == "d" { p = "d/x".to_string(); } else if p.starts_with("d/") { p = "d".to_string(); }
+                }
+                let oc = r.pick(&pool[1..6]).clone();
+                put_path(&mut ol, &p, Some(oc));
                 locals[other] = ol.clone();
                 write_tree(&odir, &ol);
                 let mut ctl = Ctl::new(&absout, &shim, &copia);
@@ -173,8 +196,16 @@ pub fn main(a: Args) -> i32 {
                 class = if held { "stale-listing" } else { "gated-nothing-to-send" };
             }
             let after = tree_of(&hub);
-            out.line("cases.txt", &format!("{} T={} L={} H={} C={}", id, table(&[&listing, &at_puts, &local_sorted, &after]), case_tree(&listing), case_tree(&at_puts), case_tree(&local_sorted)));
-            out.line("impl.txt", &format!("{} {} sent={} skipped={} conflicts={} F={}", id, obs.exit, obs.sent, obs.skipped, obs.conflicts, tree_str(&after)));
+            // a local FILE where the hub has a directory (or the reverse) is outside the flat-name model: oracles only
+            let clash = local_sorted.iter().any(|(p, _)| listing.iter().chain(at_puts.iter()).any(|(q, _)| dir_clash(p, q)));
+            let case_line = format!("{} T={} L={} H={} C={}", id, table(&[&listing, &at_puts, &local_sorted, &after]), case_tree(&listing), case_tree(&at_puts), case_tree(&local_sorted));
+            if clash {
+                out.line("cases-oracle.txt", &case_line);
+                out.count("dir_clash_runs_oracle_only");
+            } else {
+                out.line("cases.txt", &case_line);
+                out.line("impl.txt", &format!("{} {} sent={} skipped={} conflicts={} F={}", id, obs.exit, obs.sent, obs.skipped, obs.conflicts, tree_str(&after)));
+            }
             out.count("runs");
             out.count(&format!("class_{}", class));
             out.count(&format!("exit_{}", obs.exit));
@@ -210,12 +241,13 @@ pub fn main(a: Args) -> i32 {
                     }
                     out.count("second_runs");
                 }
-            } else {
+            } else if listing != at_puts {
+                // "exits non-zero because the hub changed underneath it": the hub differs between this client's listing and its Puts
                 for (p, c) in &local_sorted {
                     let cn = format!("{}.conflict-{}", p, hex(&h32(c)[..6]));
                     if after_map.get(p) != Some(c) && after_map.get(&cn) != Some(c) && !superseded(p, c) {
                         nfail += 1;
-                        out.line("specfail.txt", &format!("{} C13 non-zero exit and local file {:?} is neither at its path nor at its conflict-copy on the hub", id, p));
+                        out.line("specfail.txt", &format!("{} C13 non-zero exit and local file {:?} is neither at its path nor at its conflict-copy on the hub{}", id, p, if clash { " (file/directory clash between the local tree and the hub)" } else { "" }));
                     }
                 }
             }
